@@ -73,14 +73,17 @@ def trunc_corpus(ctx, rnd, lb):
     for i in range(n_other):
         d = gen.ksym(rnd, rnd.choice([5, 300]), 4)
         out.append(('libbz2', bz2.compress(d, rnd.randint(1, 9))))
-    # CRC ending in zero bytes so that zero padding of the input could complete it
+    # stream CRC ending in a zero byte, for every file-size residue mod 4: the zero padding of the last input
+    # word can stand in for a cut-off zero byte
+    need = {0, 1, 2, 3}
     tries = 0
-    while tries < 4000:
+    while need and tries < 20000:
         tries += 1
-        d = b'z%d' % tries
+        d = b'z%d' % tries + b'q' * (tries % 7)
         c = bz2.compress(d, 1)
-        if c[-1] == 0:
-            out.append(('crc-ends-in-zero', c)); break
+        if c[-1] == 0 and len(c) % 4 in need:
+            need.discard(len(c) % 4)
+            out.append(('crc-ends-in-zero-mod%d' % (len(c) % 4), c))
     return out
 
 
